@@ -4,13 +4,17 @@
     (TakeSnapshot, Restore, the ticker's body), Model/SnapServer.v (SAVE / LASTSAVE / restart).
     Assumptions: [codec_ok] (base64 / strconv round trips, as hypotheses), the file-system assumptions
     of Model/SnapFs.v, no memory limit ([init_state] has none; limits are C08), [st_now s <> 0].
-    Not covered by a theorem: a snapshot taken while writers are active (the state copy of [getState] is
-    not taken under the store lock; that is C05's subject) - the check exercises sequential histories. *)
+    A snapshot taken while writers are active: [C03_concurrent_snapshot] (the state copy of the snapshot
+    engine takes the command lock of [handleCommand]; with C05's serializability the published dataset is
+    the store between two commands of the serial order).  The check itself exercises sequential
+    histories; concurrent copies are exercised by C05's schedule enumeration. *)
 From stdpp Require Import gmap strings.
 From RecordUpdate Require Import RecordSet.
 Import RecordSetNotations.
-From EV Require Import Base.Str Model.Value Model.Keyspace Model.Prog Model.SnapCodec Model.SnapFs Model.Snapshot Model.SnapServer.
+From EV Require Import Base.Str Model.Value Model.Keyspace Model.Reply Model.Prog Model.Dispatch Model.SnapCodec Model.SnapFs Model.Snapshot Model.SnapServer.
+From EV Require Import Model.Conc.
 From EV Require Import Proofs.KeyspaceLemmas Proofs.SnapCodecProofs Proofs.SnapProofs Proofs.SnapRoundTrip.
+From EV Require Import Proofs.ConcLemmas Proofs.ConcSerial Proofs.ConcTheorems Proofs.SnapConc.
 Local Open Scope Z_scope.
 
 Section C03.
@@ -92,6 +96,52 @@ Theorem C03_no_early_snapshot thr (x : sfs) s ls :
   st_changes s < thr -> tick c hash thr x s ls = (x, s, ls, None).
 Proof. apply tick_below. Qed.
 
+(** A snapshot taken while writers are active.  For every pool of concurrently running commands (any
+    programs over the keyspace primitives, hence every handler with any arguments) and state copies,
+    every initial store and every schedule that completes: the lock-acquisition order [perm] is the serial
+    order of [C05_serializable] (every thread once; final store and every outcome equal the serial run),
+    the snapshot actor [t] sits at one position of it, the state its [TakeSnapshot] works on
+    ([snapshot_by]: [take_snapshot] applied to the copy) is the store after the commands before that
+    position, and when the attempt completes the state file holds exactly that dataset and a restart at
+    any time [t'] serves, for every database and key, the entry clients saw at that position unless its
+    deadline has passed at [t'].  A snapshot never contains half a command. *)
+Theorem C03_concurrent_snapshot (acts : gmap nat act) s0 sched (t : nat) :
+  all_lock acts -> acts !! t = Some ACopy -> st_now s0 <> 0 ->
+  let P := run_conc (fixed_pool acts s0) sched in
+  all_done P ->
+  let perm := acq_order P in
+  (base.NoDup perm /\ forall u, In u perm <-> is_Some (acts !! u)) /\
+  p_store P = (run_serial acts perm s0).1 /\
+  (forall u, is_Some (acts !! u) -> outcome_of P u = (run_serial acts perm s0).2 !! u) /\
+  exists pre post, perm = pre ++ t :: post /\
+    let sc := (run_serial acts pre s0).1 in
+    outcome_of P t = Some (OSnap sc) /\
+    forall (x x' : sfs) ls sx ls' t',
+      snapshot_by c hash P t x ls = Some (x', sx, ls', SnapOk) ->
+      ls' = st_now s0 /\
+      restore_read x' = Some (snapshot_object c sc (st_now s0)) /\
+      exists sr, startup c x' t' = (sr, st_now s0) /\ st_now sr = t' /\
+        forall d k, lentry sr d k = purge1 t' (lentry sc d k).
+Proof. exact (concurrent_snapshot c Hc hash acts s0 sched t). Qed.
+
+(** The same with the expiry sampler running at arbitrary points (it takes no command lock): the copy
+    shows every client the same keyspace as the serial prefix, and the restart serves the same entries
+    (no memory limit; functional extensionality through [C05_serializable_with_expiry]). *)
+Theorem C03_concurrent_snapshot_with_expiry (acts : gmap nat act) s0 sched (t : nat) :
+  acts !! t = Some ACopy -> st_now s0 <> 0 -> st_maxmem s0 = 0 ->
+  let P := run_conc (fixed_pool acts s0) sched in
+  all_done P ->
+  let perm := acq_order P in
+  exists pre post sc, perm = pre ++ t :: post /\
+    outcome_of P t = Some (OSnap sc) /\
+    same_view sc (run_serial acts pre s0).1 /\
+    forall (x x' : sfs) ls sx ls' t',
+      snapshot_by c hash P t x ls = Some (x', sx, ls', SnapOk) ->
+      ls' = st_now s0 /\
+      exists sr, startup c x' t' = (sr, st_now s0) /\ st_now sr = t' /\
+        forall d k, lentry sr d k = purge1 t' (lentry (run_serial acts pre s0).1 d k).
+Proof. exact (concurrent_snapshot_with_expiry c Hc hash acts s0 sched t). Qed.
+
 End C03.
 
 (** The trigger as it was written before the fix ([changeCount == threshold]) misses the snapshot as soon
@@ -122,6 +172,68 @@ Example C03_example :
   (startup run_codec x' 20).2 = 10.
 Proof. vm_compute. repeat split; done. Qed.
 
+(** Non-vacuity of [C03_concurrent_snapshot]: three threads - MSET, LMOVE, and the snapshot's state copy -
+    on a store with two lists; the schedule lets MSET start, then offers every thread a step in turn.
+    The copy gets the lock second: the snapshot holds MSET's two keys and the lists as they were before
+    LMOVE, and that is what the restart serves; the final store has the element moved. *)
+Definition conc_s0 : state :=
+  (set_values (init_state 10) 0 [("src", VList ["a"; "b"]); ("dst", VList ["z"])]).1.
+Definition conc_acts : gmap nat act :=
+  {[ 0%nat := cmd_act 0 ["MSET"; "k"; "1"; "m"; "x"];
+     1%nat := cmd_act 0 ["LMOVE"; "src"; "dst"; "LEFT"; "RIGHT"];
+     2%nat := ACopy ]}.
+Definition conc_sched : list nat := concat (replicate 8 [0; 2; 1]%nat).
+
+Lemma conc_acts_all_lock : all_lock conc_acts.
+Proof.
+  intros t a Ht. unfold conc_acts in Ht.
+  repeat (apply lookup_insert_Some in Ht; destruct Ht as [[_ <-]|[_ Ht]]; [done|]).
+  apply lookup_singleton_Some in Ht. by destruct Ht as [_ <-].
+Qed.
+
+Example C03_concurrent_example :
+  all_lock conc_acts /\ conc_acts !! 2%nat = Some ACopy /\ st_now conc_s0 <> 0 /\
+  let P := run_conc (fixed_pool conc_acts conc_s0) conc_sched in
+  all_doneb P = true /\ acq_order P = [0; 2; 1]%nat /\
+  show_state (p_store P) = "mem=244 db0{647374=l[7a,61]@0 6b=i1@0 6d=s78@0 737263=l[62]@0}v[]"%string /\
+  match snapshot_by run_codec (fun o => o) P 2%nat fs_empty 0 with
+  | Some (x', _, ls', r) =>
+      r = SnapOk /\ ls' = 10 /\
+      show_state (startup run_codec x' 12).1 = "mem=244 db0{647374=l[7a]@0 6b=i1@0 6d=s78@0 737263=l[61,62]@0}v[]"%string
+  | None => False
+  end.
+Proof.
+  split; [exact conc_acts_all_lock|]. split; [vm_compute; reflexivity|]. split; [vm_compute; discriminate|].
+  vm_compute. repeat split; reflexivity.
+Qed.
+
+(** Regression witness: with the state copy NOT under the command lock (the code before the C05 repair:
+    [free_pool]) a snapshot can contain half a command - RENAME has written the new key and not yet
+    deleted the old one, so the restart serves the value under both names. *)
+Definition half_s0 : state := (set_values (init_state 10) 0 [("old", VStr "v")]).1.
+Definition half_acts : gmap nat act := {[ 0%nat := cmd_act 0 ["RENAME"; "old"; "new"]; 1%nat := ACopy ]}.
+Theorem C03_unlocked_copy_half_command_refuted :
+  exists (acts : gmap nat act) s0 sched,
+    let P := run_conc (free_pool acts s0) sched in
+    all_doneb P = true /\
+    match snapshot_by run_codec (fun o => o) P 1%nat fs_empty 0 with
+    | Some (x', _, _, r) =>
+        r = SnapOk /\
+        show_state (startup run_codec x' 12).1 = "mem=120 db0{6e6577=s76@0 6f6c64=s76@0}v[]"%string
+    | None => False
+    end /\
+    (* in either serial order the copy holds exactly one of the two names *)
+    forall perm, Permutation perm [0; 1]%nat ->
+      match (run_serial acts perm s0).2 !! 1%nat with
+      | Some (OSnap sc) => bool_decide (is_Some (lentry sc 0 "old")) = negb (bool_decide (is_Some (lentry sc 0 "new")))
+      | _ => False
+      end.
+Proof.
+  exists half_acts, half_s0, [0; 0; 0; 0; 1; 1; 0; 0; 0]%nat. cbv zeta.
+  split; [vm_compute; reflexivity|]. split; [vm_compute; split; reflexivity|].
+  intros perm Hp. apply Permutation_sym, Permutation_length_2_inv in Hp. destruct Hp as [-> | ->]; vm_compute; reflexivity.
+Qed.
+
 Print Assumptions C03_codec_roundtrip.
 Print Assumptions C03_state_codec_roundtrip.
 Print Assumptions C03_roundtrip.
@@ -133,3 +245,6 @@ Print Assumptions C03_auto_trigger_outcome.
 Print Assumptions C03_no_early_snapshot.
 Print Assumptions C03_equality_trigger_refuted.
 Print Assumptions C03_keyname_collision_refuted.
+Print Assumptions C03_concurrent_snapshot.
+Print Assumptions C03_concurrent_snapshot_with_expiry.
+Print Assumptions C03_unlocked_copy_half_command_refuted.
